@@ -166,6 +166,11 @@ func e1Specs(prop, tier string) []engines.E1Spec {
 			out = append(out, engines.E1Spec{Name: "H/missing/WRONLY|CREATE/wc=" + wc, Cfg: rig.Config{RecordSize: 1, WriteCache: wc}, Level: "handle",
 				HInit: "<missing>", HFlags: os.O_WRONLY | os.O_CREATE, Alphabet: engines.HandleAlphabet(0, false), Depth: depth, Oracles: or})
 		}
+		// write-only handles of an instance constructed with writePermImpliesReadPerm (what `serve ftp` does) can also read
+		for _, fl := range []int{os.O_WRONLY, os.O_WRONLY | os.O_APPEND} {
+			out = append(out, engines.E1Spec{Name: fmt.Sprintf("H/%q/%s/wc=memory/wpir", "hello", ops.FlagString(fl)), Cfg: rig.Config{RecordSize: 1, WriteCache: "memory", WPIR: true}, Level: "handle",
+				HInit: "hello", HFlags: fl, Alphabet: engines.HandleAlphabet(5, fl&os.O_APPEND != 0), Depth: depth, Oracles: or})
+		}
 		if tier != "quick" {
 			out = append(out, engines.E1Spec{Name: "H/hello/RDWR/gz+age+minisign", Cfg: rig.Config{RecordSize: 20, Compression: "gzip", Encryption: "age", Signature: "minisign"}, Level: "handle",
 				HInit: "hello", HFlags: os.O_RDWR, Alphabet: engines.HandleAlphabet(5, false), Depth: 3, Oracles: or})
@@ -179,7 +184,7 @@ func e1Specs(prop, tier string) []engines.E1Spec {
 		for si, sh := range shapes {
 			for _, format := range []string{"ustar", "pax", "gnu"} {
 				for _, style := range []string{"./", "/", "top/"} {
-					for _, nc := range []string{"short", "c101", "p260"} {
+					for _, nc := range []string{"short", "c101", "p260", "dot"} {
 						for _, rs := range []int{20, 1} {
 							depth := 1
 							if tier == "quick" {
@@ -202,6 +207,10 @@ func e1Specs(prop, tier string) []engines.E1Spec {
 							alpha := follow
 							if nc != "short" {
 								alpha = follow[:2]
+							}
+							if nc == "dot" {
+								// additions whose names are the hidden members' names without the dots
+								alpha = append(append([]ops.Op{}, follow[:2]...), ops.Op{K: "put", P: "/f0", C: "sibling without the dot"}, ops.Op{K: "put", P: "/f1", C: "sibling without the dot"}, ops.Op{K: "mkdir", P: "/d1"}, ops.Op{K: "mkdir", P: "/d0"})
 							}
 							out = append(out, engines.E1Spec{Name: fmt.Sprintf("T/%s/rs%d", f, rs), Cfg: rig.Config{RecordSize: rs}, Foreign: &f, Alphabet: alpha, Depth: depth, Oracles: []string{"C17", "C01x"}})
 							if sh == "(f(f))" && nc == "short" && rs == 20 {
@@ -235,6 +244,11 @@ func e1Specs(prop, tier string) []engines.E1Spec {
 					}
 					out = append(out, engines.E1Spec{Name: fmt.Sprintf("RO/setup%d/nowrite=%v/absent-index=%v", si, nowrite, absent), Cfg: rig.Config{RecordSize: 20, ReadOnly: true, NoWriteOps: nowrite},
 						Setup: setup, Alphabet: engines.ROAlphabet(), Depth: depth, Oracles: or, Level: "ro", AbsentIndex: absent})
+					if !absent {
+						// the construction `serve ftp --read-only` uses: write permission implies read permission
+						out = append(out, engines.E1Spec{Name: fmt.Sprintf("RO/setup%d/nowrite=%v/absent-index=%v/wpir", si, nowrite, absent), Cfg: rig.Config{RecordSize: 20, ReadOnly: true, NoWriteOps: nowrite, WPIR: true},
+							Setup: setup, Alphabet: engines.ROAlphabet(), Depth: depth, Oracles: or, Level: "ro", AbsentIndex: absent})
+					}
 					if si < 2 {
 						// first open over a tape whose tail is torn (the rebuild fails part-way): cut inside the trailer, inside the
 						// last record's payload/padding and inside its header
